@@ -28,6 +28,7 @@ def run(tier):
     c.assumptions = ["installed oneTBB 2021.8; active_value(max_allowed_parallelism) is the authoritative observation of the limit",
                      "the demo prints its 'Using ..._TBB' line immediately before the library call (sampling seam; demo source is compiled unmodified with main renamed)"]
     b = builds()
+    c.builds_done()
     f = os.path.join(vlib.BUILD, "k4.dimacs")
     open(f, "w").write(K4)
     r = vlib.run_harness(b["knob_lib"], ["--len", 2 if tier == "quick" else 4])
